@@ -247,8 +247,8 @@ def minimize_level(name, n, stats, viol):
     for v in lattice(name, n):
         ok = valid_value(name, v, n)
         for ex in EXITS:
-            if name == "nb_points" and ex in ("allfixed",):
-                continue
+            if name == "nb_points" and ex in ("allfixed",) and v > 0:
+                continue  # which n counts is not stated; a non-positive size is invalid whatever n is
             opts = {}
             consts = {}
             (opts if name in OPTS else consts)[name] = v
